@@ -123,6 +123,16 @@ pub fn check_string2(s: &str, acc: Option<&mut Acc>, in_strings_layer: bool) -> 
                 ))
             }
         }
+        // the owned entry (String / Cow::Owned) must give the same escaped form as the borrowed one
+        let owned = guarded(|| match level {
+            0 => escape(s.to_string()).into_owned(),
+            1 => partial_escape(std::borrow::Cow::<str>::Owned(s.to_string())).into_owned(),
+            _ => minimal_escape(s.to_string()).into_owned(),
+        });
+        match owned {
+            Ok(o) if o == e => {}
+            other => return Err(format!("escape level {} of the owned string gives {:?}, of the borrowed string {:?}", level, other, e)),
+        }
         let needs = s.bytes().any(|b| forbidden(level).contains(&b));
         if !needs && (!borrowed || e != s) {
             return Err(format!(
